@@ -2,6 +2,7 @@ SPECIFICATION Spec
 CONSTANTS
   Dials <- DialsA
   Accepts <- AcceptsA
+  AbortDials <- NoAborts
   DSide <- CSide
   DId <- CId
   ASide <- CSide
